@@ -3,14 +3,32 @@ shallow defect cannot hide the next), plus an optional shrink pass per failure b
 from hypothesis import HealthCheck, Phase, given, seed as hseed, settings
 
 
+DROPPED = {}  # harness-side exceptions per type (first traceback kept): the case is dropped, the shard goes on
+FIRST_TRACEBACK = []
+
+
 def drive(strategy, fn, n, seed):
-    """call fn(example) for n generated examples; fn must not raise for oracle failures"""
+    """call fn(example) for n generated examples; fn must not raise for oracle failures.
+    An exception that escapes fn is a flaw of the harness (or a guard that fired at an unlucky moment): the case is dropped and
+    counted (the runner writes the counts into the evidence as `harness_exception_case_dropped:<type>`); it never becomes a verdict
+    and it does not void the rest of the shard."""
+    import traceback
+    from .probe import NeedChoice, Timeout
+
     @settings(max_examples=n, database=None, deadline=None, derandomize=False, report_multiple_bugs=False,
               suppress_health_check=list(HealthCheck), phases=[Phase.generate])
     @hseed(seed)
     @given(strategy)
     def test(x):
-        fn(x)
+        try:
+            fn(x)
+        except NeedChoice:
+            raise
+        except (Exception, Timeout) as exc:  # noqa: BLE001
+            name = type(exc).__name__
+            DROPPED[name] = DROPPED.get(name, 0) + 1
+            if not FIRST_TRACEBACK:
+                FIRST_TRACEBACK.append(traceback.format_exc()[-1500:])
 
     test()
 
